@@ -109,6 +109,7 @@ where
     B::ToSwarm: std::fmt::Debug,
 {
     let mut run: Run<B> = Run::new(cfg);
+    run.bias_peer = cfg.get("bias_peer").and_then(|x| x.as_i64()).unwrap_or(0);
     let mut sched = vec![];
     match cmds {
         Some(cs) => {
@@ -174,6 +175,14 @@ pub fn main(a: &vcommon::Args) {
                     }
                     if r.gen_bool(0.3) {
                         cfg["bypass"] = json!(2);
+                    }
+                    if r.gen_bool(0.4) {
+                        // per-peer pressure: almost all connections go to one peer, per-peer limit 2-3, long run
+                        cfg["bias_peer"] = json!(1);
+                        cfg["max_pp"] = json!(r.gen_range(2..=3));
+                        cfg.as_object_mut().unwrap().remove("max_ei");
+                        cfg.as_object_mut().unwrap().remove("max_eo");
+                        cfg.as_object_mut().unwrap().remove("max_e");
                     }
                     run_any::<Limited>(&mut out, &cfg, None, &mut r, steps, false);
                 } else if i % 2 == 0 {
